@@ -71,6 +71,7 @@ type scanGhost struct {
 
 var moreLens []int // lengths of the lines the plugin writes to its real stdout after the handshake
 var consumed int
+var stdoutNext int
 var scannerStopped bool
 
 var scanG = map[*bufio.Scanner]*scanGhost{}
@@ -99,13 +100,16 @@ func mScan(s *bufio.Scanner) bool {
 		}
 	}
 	// after the handshake: bufio.Scanner with ScanLines; a token over 64 KiB ends scanning with ErrTooLong
-	if g.next < len(moreLens) {
-		n := moreLens[g.next]
-		g.next++
+	if scannerStopped {
+		return false
+	}
+	if stdoutNext < len(moreLens) {
+		n := moreLens[stdoutNext]
 		if n > 64*1024 {
-			scannerStopped = true
+			scannerStopped = true // the over-long token is NOT consumed: it stays in the pipe
 			return false
 		}
+		stdoutNext++
 		consumed++
 		g.text = "later"
 		return true
@@ -118,7 +122,24 @@ func mScan(s *bufio.Scanner) bool {
 func mText(s *bufio.Scanner) string { return scanG[s].text }
 
 //verif:model (*bufio.Scanner).Err
-func mErr(s *bufio.Scanner) error { return nil }
+func mErr(s *bufio.Scanner) error {
+	if scannerStopped {
+		return bufio.ErrTooLong
+	}
+	return nil
+}
+
+// io.Copy from the plugin's stdout pipe: reads until EOF, i.e. consumes whatever the plugin writes until it dies
+//verif:model io.Copy
+func mCopy(dst io.Writer, src io.Reader) (int64, error) {
+	p := src.(*vPipe).p
+	for stdoutNext < len(moreLens) {
+		stdoutNext++
+		consumed++
+	}
+	<-p.dead
+	return 0, nil
+}
 
 //verif:model bufio.NewReaderSize
 func mNewReaderSize(r io.Reader, n int) *bufio.Reader {
